@@ -142,6 +142,32 @@ def three_node_graph(rates=(10, 20, 15), windows=(2, 1, 2), ts_max=0.4, num_epis
     return nodes, cg, g
 
 
+def fanout_graph(windows=(4, 1), rates=(20, 10, 10), delays=(0.004, 0.004), third=None, ts_max=0.5, num_episodes=1, supergraph=None, node_cls=ProbeNode, seed=0, **gkw):
+    """one producer feeding several consumers that need different ring depths:
+    prod(node2) -> alpha(node3, window windows[0]) -> sup(node1, supervisor) and prod(node2) -> sup(node1, window windows[1]);
+    optionally a third consumer beta(node4, window third[0], rate third[1]) -> sup.  The producer's buffer must cover its *deepest* reader."""
+    from distrax import Deterministic as D
+    from rex.artificial import generate_graphs
+    from rex.constants import Supergraph
+    from rex.graph import Graph
+
+    prod = node_cls(name="node2", rate=rates[0], delay_dist=D(0.003))
+    alpha = node_cls(name="node3", rate=rates[1], delay_dist=D(0.005))
+    sup = node_cls(name="node1", rate=rates[2], delay_dist=D(0.005))
+    nodes = {"node2": prod, "node3": alpha, "node1": sup}
+    alpha.connect(prod, window=windows[0], blocking=False, delay_dist=D(delays[0]))
+    sup.connect(prod, window=windows[1], blocking=False, delay_dist=D(delays[1]))
+    sup.connect(alpha, window=1, blocking=False, delay_dist=D(0.002))
+    if third:
+        beta = node_cls(name="node4", rate=third[1], delay_dist=D(0.004))
+        nodes["node4"] = beta
+        beta.connect(prod, window=third[0], blocking=False, delay_dist=D(0.006))
+        sup.connect(beta, window=1, blocking=False, delay_dist=D(0.002))
+    cg = generate_graphs(nodes, ts_max, rng=jax.random.PRNGKey(seed), num_episodes=num_episodes)
+    g = Graph(nodes=nodes, supervisor=sup, graphs_raw=cg, supergraph=supergraph or Supergraph.MCS, progress_bar=False, **gkw)
+    return nodes, cg, g
+
+
 def hetero_graph(settings, supergraph=None, node_cls=ProbeNode, ts_max=0.6, **gkw):
     """p (20 Hz) -> x (10 Hz) -> s (10 Hz, supervisor) plus a direct link p -> s; one episode per (x_phase_delay, direct_delay)
     setting, concatenated into a multi-episode graph whose episodes have *different* schedules (as stacked recordings have)."""
